@@ -9,10 +9,11 @@ V = Path(__file__).resolve().parent.parent
 props = [json.loads(l) for l in (V / 'properties.jsonl').read_text().splitlines() if l.strip()]
 ids = [p['id'] for p in props]
 
+ready = set((V / 'meta' / 'READY').read_text().split())
 checks, na = [], []
 for pid in ids:
     f = V / 'meta' / f'{pid}.json'
-    if not f.exists():
+    if not f.exists() or pid not in ready:
         na.append({'property_id': pid, 'reason': 'check not built yet in this round (machinery under construction; see DESIGN.md section 3 for the planned design)'})
         continue
     m = json.loads(f.read_text())
